@@ -14,7 +14,7 @@ exec(open(os.path.join(V, "tools", "manifest_table.py")).read())
 
 hooks = [l.split()[0] for l in subprocess.check_output(
     ["git", "-C", "/repo", "log", "--format=%H %s", "32ed046..HEAD"], text=True).splitlines()
-    if l.split(" ", 1)[1].startswith("verif hooks:")]
+    if l.split(" ", 1)[1].startswith(("verif hooks:", "verif hook:"))]
 
 props = [json.loads(l)["id"] for l in open(os.path.join(V, "properties.jsonl"))]
 m = {
